@@ -282,6 +282,13 @@ def make_spec(rng, noline, c99=False):
             # a comment line of its own between two rules
             S.add("    /* between rules: %s */" % comment_text(S.pick("action_braced")[1]))
             S.between = getattr(S, "between", 0) + 1
+        elif R.chance(12):
+            # a %{ %} block between two rules (copied to the output; a comment only, its
+            # meaning as code is "not well-defined" according to the manual)
+            S.add("%{")
+            S.add("\t/* block between rules: %s */" % comment_text(S.pick("action_percent")[1]))
+            S.add("%}")
+            S.between = getattr(S, "between", 0) + 1
     S.add("[ \\t\\n]+\t;")
     S.lines.append("<<EOF>>\t{")
     S.add(S.stmt_tracer("eof_action"))
